@@ -104,6 +104,14 @@ class PoolProp(Prop):
             for pol in POLICIES:
                 for sd in range(3 if tier == "quick" else 25):
                     yield dict(cfg=b["cfg"], hist=b["hist"], seed=sd, policy=pol)
+        # systematic: every schedule with exactly one preemption of the non-preemptive baseline (first N of the enumeration)
+        tiny = [dict(cfg=[1, 1, 1, 0, None], hist=[[0, 1, [1, 2], 1]]),
+                dict(cfg=[2, ["f", 10], 1, 0, None], hist=[[0, 1, [1, 2, 3], 1]]),
+                dict(cfg=[2, None, None, 1, 1], hist=[[0, 0, [1, 2], 1], [0, 1, [3], 1]]),
+                dict(cfg=[2, ["f", 10], 2, 1, 2], hist=[[1], [0, 1, [4, 5, 6], 2], [1]])]
+        for b in tiny:
+            for k in range(40 if tier == "quick" else 700):
+                yield dict(cfg=b["cfg"], hist=b["hist"], seed=0, policy="np", pb1=k)
 
     # ------------------------------------------------------------------ model side (trace acceptance)
     def to_model2(self, case, o):
@@ -232,6 +240,7 @@ class PoolProp(Prop):
             c = dict(case); c["seed"] = sd; yield c
 
     def impl(self, case):
-        o = pc.run_pool_case(case)
+        from harness import sched as S
+        o = S.pb_run(case, pc.run_pool_case)
         o["lifelog"] = {str(k): v for k, v in o["lifelog"].items()}
         return o
